@@ -24,7 +24,7 @@ CHECK = {
     "assumptions": E3_ASSUME,
     "stages": [
         {"name": "sched", "pkg": "./checks/c10/sched", "sync": ["cache/data.go"], "gomaxprocs": 1,
-         "budget_quick": "100s"},
+         "budget_quick": "300s"},
         {"name": "race", "pkg": "./checks/c10/race", "race": True},
     ],
 }
